@@ -295,6 +295,145 @@ def native_part(tier, seed, limit):
     return stats, findings, inconclusive, [c.tag for c in order]
 
 
+# ---------------------------------------------------------------------- G: which unit a read registers
+HOST_DL_TARGET = os.path.join(hostrun.HOST_DIR, "target-dl")
+HOST_DL_BIN = os.path.join(HOST_DL_TARGET, "debug", "verif-host")
+
+
+def build_host_dl():
+    """verif-host with the macro's dynamic_load + ssr code paths (cfg!(feature = ..) in the #[path]-included sources)."""
+    p = subprocess.run(["cargo", "build", "--quiet", "--features", "dynamic_load,ssr", "--target-dir", HOST_DL_TARGET],
+                       cwd=hostrun.HOST_DIR, env=hostrun.ENV, capture_output=True, text=True)
+    if p.returncode != 0:
+        raise hostrun.BuildFailed(p.stderr[-3000:])
+
+
+def registration_part(tier, seed, limit):
+    """For every key of every project: the units registered by reading the key (term over the symbolic locale, from the
+    generated dynamic_load+ssr code) must be, for every locale, the unit of the key's effective locale and namespace
+    (nothing at all is also accepted where the value is a number / boolean literal). z3 decides over the locale."""
+    import smt
+    import z3
+    build_host_dl()
+    cases = [c for c in c11.cases_for(tier, seed) if c.expect == "ok"][:limit]
+    work = os.path.join(hostrun.VERIF, "work", "C17g")
+    os.makedirs(work, exist_ok=True)
+    for c in cases:
+        c.dir = os.path.join(work, c.tag.replace("/", "_").replace(":", "_"))
+        if os.path.isdir(c.dir):
+            shutil.rmtree(c.dir)
+        c.project.write(c.dir)
+    res = {}
+    p = subprocess.run([HOST_DL_BIN, "batch"], input="\n".join(c.dir for c in cases) + "\n", capture_output=True, text=True, env=hostrun.ENV)
+    for l in p.stdout.split("\n"):
+        try:
+            j = json.loads(l)
+            res[j["dir"]] = j
+        except Exception:
+            pass
+    stats = {"projects": 0, "keys": 0, "queries": 0, "unsat": 0, "sat": 0, "twins": 0, "solver_s": 0.0}
+    findings, inconclusive = [], []
+    for c in cases:
+        h = res.get(c.dir)
+        if not h or h.get("status") != "ok":
+            inconclusive.append("%s: host(dynamic_load) %s %s" % (c.tag, (h or {}).get("status"), str((h or {}).get("error"))[:200]))
+            continue
+        proj = c.project
+        stats["projects"] += 1
+        names = {}
+        for key, t in h["tables"].items():
+            loc = t["locale"].split("::")[-1].strip()
+            nsname = t["name"][: -(len(loc) + 1)] if "namespaces" in key else None
+            names[(nsname, loc)] = t["name"]
+        locs = list(proj.locale_order())
+        for ns, path in proj.leaf_keys():
+            hk = engine_g.host_key(h, ns, path)
+            if not hk or hk.get("kind") not in ("builder", "lit"):
+                if hk and hk.get("err"):
+                    inconclusive.append("%s %s: %s" % (c.tag, ".".join(path), str(hk.get("err"))[:200]))
+                continue
+            reg = hk.get("registered")
+            if reg is None or "err" in reg:
+                inconclusive.append("%s %s: no registration term" % (c.tag, ".".join(path)))
+                continue
+            stats["keys"] += 1
+            ctx = smt.Ctx([proj.ident(l) for l in locs])
+            try:
+                tg = ctx.term(reg)
+            except smt.Inconclusive as e:
+                inconclusive.append("%s %s: %s" % (c.tag, ".".join(path), e))
+                continue
+            bad = []
+            allowed_of = {}
+            for l in locs:
+                try:
+                    eff = proj.effective_locale(ns, l, path)
+                    av = proj.raw_lookup(ns, eff, path)
+                except Exception:
+                    eff, av = None, None
+                if eff is None:
+                    continue
+                nsid = ns.replace("-", "_") if ns else None
+                marker = "\u27ea%s\u27eb" % names.get((nsid, proj.ident(eff)), "?")
+                allowed = [marker] + ([""] if (av and av[0] in ("num", "bool")) else [])
+                allowed_of[l] = allowed
+                bad.append(z3.And(ctx.L == ctx.loc_const[proj.ident(l)], z3.Not(z3.Or([tg == z3.StringVal(a) for a in allowed]))))
+            sol = z3.Solver()
+            sol.set("timeout", 20000)
+            for sc in ctx.side:
+                sol.add(sc)
+            sol.add(z3.Or(bad) if bad else z3.BoolVal(False))
+            t1 = time.time()
+            r = sol.check()
+            stats["solver_s"] += time.time() - t1
+            stats["queries"] += 1
+            if r == z3.unsat:
+                stats["unsat"] += 1
+                # vacuity twin: some locale does get its expected marker
+                tw = z3.Solver()
+                for sc in ctx.side:
+                    tw.add(sc)
+                l0 = next(iter(allowed_of), None)
+                if l0 is not None:
+                    tw.add(ctx.L == ctx.loc_const[proj.ident(l0)], tg == z3.StringVal(allowed_of[l0][0]))
+                    if tw.check() == z3.sat:
+                        stats["twins"] += 1
+            elif r == z3.sat:
+                stats["sat"] += 1
+                mdl = sol.model()
+                lv = str(mdl.eval(ctx.L, model_completion=True))[2:]
+                got = smt.z3_str(mdl.eval(tg, model_completion=True))
+                lname = next((l for l in locs if proj.ident(l) == lv), lv)
+                findings.append(("wrong_unit_registered", {"case": c.tag, "project_dir": c.dir, "ns": ns, "key": list(path), "locale": lname,
+                                                            "registered_by_generated_code": got, "allowed": allowed_of.get(lname)}))
+            else:
+                inconclusive.append("%s %s: solver unknown" % (c.tag, ".".join(path)))
+    stats["solver_s"] = round(stats["solver_s"], 2)
+    return stats, findings, inconclusive
+
+
+def confirm_registration(payload):
+    """Native replay of a wrong_unit_registered finding: one request reading that key in that locale."""
+    import model as _m
+    d = payload["project_dir"]
+    h = json.loads(subprocess.run([hostrun.HOST_BIN, "eval", d], capture_output=True, text=True, env=hostrun.ENV).stdout)
+    hk = engine_g.host_key(h, payload["ns"], tuple(payload["key"]))
+    if not hk:
+        return None, "key not found by the default host"
+    class P:  # just enough of Project for read_expr
+        @staticmethod
+        def ident(l):
+            return l.replace("-", "_")
+    body = "    request(0, || vec![%s]);" % read_expr(P, h, payload["ns"], tuple(payload["key"]), payload["locale"], hk)
+    setup_crate(d, body)
+    texts, scripts = run_crate()
+    dec = node_eval(scripts)[0]
+    if not dec["ok"]:
+        return True, "script is not JavaScript: %s" % dec["error"]
+    listed = sorted("\u27ea%s_%s\u27eb" % ((u["id"].replace("-", "_") if u["id"] else "I18nKeys"), u["locale"].replace("-", "_")) for u in dec["value"])
+    return (sorted(listed) != sorted(a for a in payload["allowed"][:1]) and not (listed == [] and "" in payload["allowed"])), {"units_in_script": listed}
+
+
 def run(tier, seed):
     prop = "C17"
     t0 = time.time()
@@ -307,6 +446,24 @@ def run(tier, seed):
         stats, findings, inconclusive, tags = native_part(tier, seed, 9 if tier == "quick" else 30)
     finally:
         replay.unlock()
+    try:
+        gstats, gfind, ginc = registration_part(tier, seed, 12 if tier == "quick" else 60)
+    except hostrun.BuildFailed as e:
+        gstats, gfind, ginc = {"projects": 0}, [], ["host (dynamic_load, ssr) does not build: %s" % str(e)[-500:]]
+    inconclusive += ginc
+    for kind, payload in gfind[:3]:
+        try:
+            replay.lock()
+            ok, info = confirm_registration(payload)
+        except Exception as e:
+            ok, info = None, "native replay failed: %s" % str(e)[-300:]
+        finally:
+            replay.unlock()
+        payload["native"] = info
+        if ok:
+            findings.append((kind, dict(payload, script=None, request=[{"ns": payload["ns"], "key": payload["key"], "locale": payload["locale"]}])))
+        else:
+            inconclusive.append("registration finding on %s %s did not reproduce natively: %s" % (payload["case"], ".".join(payload["key"]), info))
     known = report.load_known()
     violations = 0
     seen = set()
@@ -357,12 +514,13 @@ def run(tier, seed):
         "samples": [{"harness": h, "verdict": v} for h, v in cov["harnesses"].items()][:3],
         "kani": cov,
         "end_to_end_concrete": dict(stats, projects_used=tags, findings=len(findings)),
-        "functions_encoded": cov["functions_encoded"],
+        "registered_units_decided_by_z3": gstats,
+        "functions_encoded": list(cov["functions_encoded"] or []) + ["code generated by leptos_i18n_macro with cfg!(feature = dynamic_load) && cfg!(feature = ssr): literal accessors, builders (build_string), strings accessors / get_translations with <Unit as TranslationUnit>::register() as an emission (evaluated symbolically by verif-host built with those features)"],
         "bounds": cov["bounds"],
         "solver_s": cov["solver_s"],
         "inconclusive": inconclusive,
     }, wall, [
-        "solver part: only push_js_string; the assembly of the script around the literals (RegisterCtx::to_array: locale names, namespace names, brackets, commas, HashMap iteration) and which units a render registers are covered by the concrete stage only",
+        "solver parts: write_js_string (Kani) and which unit each key's accessors register (z3 over the locale, generated code); the assembly of the script around the literals (RegisterCtx::register / to_array: HashMap, locale names, namespace names, brackets, commas) is covered by the concrete stage only",
         "locale names and namespace names are identifiers (C13 / configuration), they are written unescaped by to_array",
         "a unit is 'used' by a read when it is the unit of the key's effective locale (C03) and namespace; units whose table is needed for the rendered text must be listed, no unit outside the used ones may be",
         "expected strings of a unit = the table baked into the generated code (C11 ties it to the source literals)",
